@@ -255,8 +255,18 @@ func refSplitFrames(b []byte) (frames []refFrame, complete bool) {
 	return frames, true
 }
 
+// refStrictCompressed: in harnesses whose peers are well-formed (they never send a zero-length payload marked
+// compressed themselves), a payload that is marked compressed must be a compressed payload: zero bytes are
+// not one (real gzip, like the toy compressor, emits at least a header for the empty message). Elsewhere a
+// zero-length payload is read as the empty message whatever the flag says, because the transcoder relays such
+// a frame unchanged on its re-framing path and receivers differ on it.
+var refStrictCompressed bool
+
 // refDecodeMsg: optional toy decompression then codec decoding.
 func refDecodeMsg(codec string, compressed bool, wire []byte) ([]byte, bool) {
+	if compressed && len(wire) == 0 && refStrictCompressed {
+		return nil, false
+	}
 	if compressed && len(wire) > 0 { // a zero-length payload is the empty message whatever the flag says
 
 		d, ok := refToyDecompress(wire)
@@ -274,7 +284,7 @@ func refDecodeMsg(codec string, compressed bool, wire []byte) ([]byte, bool) {
 func refParseBackendBody(target Protocol, unary bool, codec string, compDeclared bool, body []byte) (msgs [][]byte, ok bool) {
 	enveloped := target == ProtocolGRPC || target == ProtocolGRPCWeb || (target == ProtocolConnect && !unary)
 	if !enveloped {
-		if len(body) == 0 && codec != CodecJSON {
+		if len(body) == 0 && codec != CodecJSON && !(compDeclared && refStrictCompressed) {
 			return [][]byte{{}}, true // empty proto message
 		}
 		m, ok := refDecodeMsg(codec, compDeclared, body)
